@@ -8,6 +8,7 @@ import (
 	"fmt"
 	"os"
 	"runtime"
+	"runtime/debug"
 	"sort"
 	"strconv"
 	"strings"
@@ -88,6 +89,21 @@ func runWithStallWatchdog(c *Ctx, r propRunner) {
 	done := make(chan struct{})
 	go func() {
 		defer close(done)
+		// safety net under the per-case guards of the runners: a panic that reaches this point
+		// came out of a call into the library on a generated input (or out of the runner itself);
+		// it is reported with the stack, whose frames name the library function and its arguments,
+		// and the run ends with what it has
+		defer func() {
+			if p := recover(); p != nil {
+				lines := strings.Split(string(debug.Stack()), "\n")
+				if len(lines) > 40 {
+					lines = lines[:40]
+				}
+				c.Oracle("", "a call made by the run panicked (no per-case guard caught it)",
+					map[string]interface{}{"panic": fmt.Sprint(p), "seed": os.Getenv("VERIF_SEED"), "stack": lines}, "panic: "+fmt.Sprint(p), "every call returns")
+				c.Notes = append(c.Notes, "the run was cut short by a panic; cases after it were not run")
+			}
+		}()
 		r(c)
 	}()
 	tick := time.NewTicker(5 * time.Second)
